@@ -75,6 +75,7 @@ type sessionResult struct {
 	timeout              bool
 	faultApplied         bool
 	faultOff             int64
+	hsLen                int64
 }
 
 func helloItem(h helloSpec, id discover.NodeID) *refrlp.Item {
@@ -154,6 +155,7 @@ func runSession(c *fw.Ctx, sp *sessionSpec) *sessionResult {
 			rl.Wait()
 			res.faultApplied = rl.Applied()
 			res.faultOff = rl.absOff
+			res.hsLen = rl.hsLen
 		}
 	}()
 	tA, tB := p2p.VerifNewRLPX(connA), p2p.VerifNewRLPX(connB)
@@ -503,7 +505,18 @@ func judgeFault(c *fw.Ctx, sp *sessionSpec, res *sessionResult) {
 	if f.Region == "hs" {
 		// the handshake packet of this direction was altered: the key agreement
 		// must not complete into a session that delivers anything in either direction
-		if res.helloAB || res.helloBA || res.deliveredAB > 0 || res.deliveredBA > 0 {
+		hAB, hBA := res.helloAB, res.helloBA
+		if f.Kind != "flip" && f.Kind != "cut" && res.faultOff >= res.hsLen-3 {
+			// a byte dropped, doubled or inserted at the very end of the packet can,
+			// when neighbouring ciphertext bytes are equal, leave the packet intact and
+			// shift the frames behind it instead: then only this direction is judged
+			if f.Dir == 0 {
+				hBA = false
+			} else {
+				hAB = false
+			}
+		}
+		if hAB || hBA || res.deliveredAB > 0 || res.deliveredBA > 0 {
 			c.Violate("tamper_undetected", "doEncHandshake", cause+"_"+dirName,
 				fmt.Sprintf("handshake packet altered at offset %d (%s) yet messages were delivered (hello A->B %v, B->A %v, msgs %d/%d)", res.faultOff, f.Kind, res.helloAB, res.helloBA, res.deliveredAB, res.deliveredBA))
 		} else {
@@ -529,6 +542,20 @@ func judgeFault(c *fw.Ctx, sp *sessionSpec, res *sessionResult) {
 	allowed := fi // number of frames (incl. hello) that may be delivered
 	if f.Kind == "replay" {
 		allowed = fi + 1
+	}
+	// a byte dropped, doubled or inserted changes the stream from the first
+	// position where the shifted bytes differ, which is later than the fault
+	// offset when neighbouring ciphertext bytes happen to be equal; at the very
+	// end of a frame that can leave the frame itself intact (doubling its last
+	// byte always does). Such faults are charged to the next frame.
+	if f.Kind == "drop" && f.Len == 1 || f.Kind == "dup" || f.Kind == "insert" {
+		end := total
+		if fi+1 < len(starts) {
+			end = starts[fi+1]
+		}
+		if off >= end-3 {
+			allowed = fi + 1
+		}
 	}
 	got := delivered
 	if helloDelivered {
